@@ -2,6 +2,7 @@
 mod controller;
 mod probes;
 mod sched;
+mod statehist;
 
 use controller::{Config, Policy};
 use grevm::verif::group;
@@ -25,6 +26,7 @@ fn groups_of(v: &Value) -> u32 {
             "CACHE" => group::CACHE,
             "HIST" => group::HIST,
             "ENTRY" => group::ENTRY,
+            "ATOMIC" => group::ATOMIC,
             other => panic!("unknown group {other}"),
         };
     }
@@ -371,8 +373,10 @@ fn cmd_sched(a: &Value) -> Value {
         let s = Scenario::from_json(sc);
         let mut uni: Vec<String> = Vec::new();
         for i in 0..s.locs.len() {
-            uni.push(format!("S:{:x}:{:x}", holder(), i));
-            uni.push(format!("R:{:x}", holder()));
+            let (a, k) = slot_of(&s.locs, i);
+            uni.push(format!("S:{a:x}:{k:x}"));
+            uni.push(format!("R:{a:x}"));
+            uni.push(format!("B:{a:x}"));
         }
         uni.push(format!("B:{:x}", holder()));
         uni.push(format!("B:{:x}", driver()));
@@ -400,7 +404,7 @@ fn cmd_sched(a: &Value) -> Value {
                     a["guide"].as_array().unwrap().iter().map(|g| {
                         let loc = g[2].as_str().map(|name| {
                             // model location name -> raw event location of this scenario
-                            s.locs.iter().position(|l| l == name).map_or(name.to_owned(), |i| format!("S:{:x}:{:x}", holder(), i))
+                            s.locs.iter().position(|l| l == name).map_or(name.to_owned(), |i| { let (a, k) = slot_of(&s.locs, i); format!("S:{a:x}:{k:x}") })
                         });
                         (g[0].as_str().unwrap().to_owned(), g[1].as_str().unwrap().to_owned(), loc)
                     }).collect()),
@@ -412,7 +416,7 @@ fn cmd_sched(a: &Value) -> Value {
             *PARTIAL.lock().unwrap() = Some(json!({"scenarios": per, "violations": violations, "trace_runs": out.runs,
                 "trace_events": out.events, "current": {"scenario": sc, "seed": run_seed, "workers": workers, "run": k}}));
             let fs = fatal_slot.clone();
-            let o = run_scheduler(&s, cfg, workers, a["force_sequential"].as_bool().unwrap_or(false), fs);
+            let o = run_scheduler(&s, cfg, workers, a["force_sequential"].as_bool().unwrap_or(false), fs, &uni);
             if let Some(f) = fatal_slot.lock().unwrap().take() {
                 *FATAL.lock().unwrap() = Some(f);
             }
@@ -461,6 +465,131 @@ fn cmd_sched(a: &Value) -> Value {
     json!({"scenarios": per, "violations": violations, "trace_runs": out.runs, "trace_events": out.events})
 }
 
+/// C14: several callers race the entry points of ONE scheduler.
+fn cmd_entry(a: &Value) -> Value {
+    use sched::*;
+    let groups = groups_of(&a["groups"]);
+    let mut out = TraceOut::new(a["out"].as_str().unwrap());
+    let sc = &a["scenario"];
+    let s = Scenario::from_json(sc);
+    let entries: Vec<String> = a["entries"].as_array().unwrap().iter().map(|e| e.as_str().unwrap().to_owned()).collect();
+    let reference = sched::reference(&s, &[], false);
+    let workers = a["workers"].as_u64().unwrap_or(1) as usize;
+    let mut res = drive(
+        a,
+        groups,
+        group::ENTRY | 0x8000_0000,
+        |cfg| {
+            let db = std::sync::Arc::new(FaultDb::new(database(&s), None));
+            let scheduler = std::sync::Arc::new(grevm::Scheduler::new_with_runtime_config(
+                cfg_env_of(&s),
+                block_env(),
+                std::sync::Arc::new(transactions(&s)),
+                grevm::ParallelState::new(db, true, false),
+                Some(std::sync::Arc::new(vec![(driver(), driver_precompile(&s))])),
+                grevm::GrevmConfig {
+                    concurrency_level: workers,
+                    force_sequential: a["force_sequential"].as_bool().unwrap_or(false),
+                    min_parallel_txs: 0,
+                    delegated_safety: grevm::DelegatedSafetyConfig::disabled(),
+                },
+            ));
+            let results = std::sync::Arc::new(std::sync::Mutex::new(Vec::new()));
+            let mut roots: Vec<(String, Body)> = Vec::new();
+            for (k, e) in entries.iter().enumerate() {
+                let (sch, results, e) = (scheduler.clone(), results.clone(), e.clone());
+                roots.push((
+                    format!("m{k}"),
+                    Box::new(move |ctl| {
+                        let r = match e.as_str() {
+                            "fallback_sequential" => sch.fallback_sequential(),
+                            "parallel_execute" => sch.parallel_execute(Some(1)),
+                            _ => sch.execute(),
+                        };
+                        let ok = r.is_ok();
+                        let once = r.as_ref().err().is_some_and(|e| format!("{:?}", e.error).contains("execute only once"));
+                        if ok {
+                            ctl.user_emit("M_Run", vec![]);
+                        }
+                        ctl.user_emit("M_Return", vec![("ok", grevm::verif::Val::B(ok))]);
+                        results.lock().unwrap().push((k, ok, once));
+                    }),
+                ));
+            }
+            let record = run_roots(cfg, roots);
+            let results = results.lock().unwrap().clone();
+            let scheduler = std::sync::Arc::try_unwrap(scheduler).ok().expect("all callers returned");
+            let (outcomes, mut state) = scheduler.take_result_and_state();
+            let bundle = grevm::ParallelTakeBundle::parallel_take_bundle(&mut state, revm_database::states::bundle_state::BundleRetention::Reverts);
+            let winners = results.iter().filter(|r| r.1).count();
+            let violation = if let Some(v) = &record.verdict {
+                Some(format!("callers cannot make progress: {v:?}"))
+            } else if winners != 1 {
+                Some(format!("{winners} callers executed the block (expected exactly one): {results:?}"))
+            } else if results.iter().any(|r| !r.1 && !r.2) {
+                Some(format!("a losing caller did not get the execute-only-once error: {results:?}"))
+            } else if outcomes != reference.outcomes {
+                Some(format!("outcomes differ from a single in-order run: {} vs {}", outcomes.len(), reference.outcomes.len()))
+            } else {
+                bundle_diff(&reference.bundle, &bundle).map(|d| format!("state differs from a single in-order run: {d}"))
+            };
+            (record, json!({"entries": entries, "scenario": s.name}), violation)
+        },
+        &mut out,
+    );
+    res["trace_runs"] = json!(out.runs);
+    res["trace_events"] = json!(out.events);
+    res
+}
+
+fn cmd_hist(a: &Value) -> Value {
+    let groups = groups_of(&a["groups"]);
+    let mut out = TraceOut::new(a["out"].as_str().unwrap());
+    let mut all = Vec::new();
+    for sc in a["scripts"].as_array().unwrap() {
+        let script = HistScript {
+            anchor: sc["anchor"].as_i64().unwrap(),
+            near_max: sc["near_max"].as_bool().unwrap_or(false),
+            ops: sc["ops"].as_array().unwrap().iter().map(|w| {
+                w.as_array().unwrap().iter().map(|o| {
+                    if o[0].as_str() == Some("rec") {
+                        HistOp::Rec(o[1].as_u64().unwrap() as usize, o[2].as_str().unwrap().to_owned(), o[3].as_i64().unwrap())
+                    } else {
+                        HistOp::Inv(o[1].as_u64().unwrap() as usize)
+                    }
+                }).collect()
+            }).collect(),
+        };
+        let header = json!({"name": sc["name"], "anchor": script.anchor,
+            "ops": sc["ops"].as_array().unwrap().iter().map(|w| w.as_array().unwrap().iter().map(|o| {
+                if o[0].as_str() == Some("rec") { json!({"op": "rec", "inc": o[1], "k": o[2], "v": o[3]}) }
+                else { json!({"op": "inv", "inc": o[1], "k": "est", "v": 0}) }
+            }).collect::<Vec<_>>()).collect::<Vec<_>>()});
+        let mut res = drive(
+            a,
+            groups,
+            group::HIST,
+            |cfg| {
+                let o = hist_probe(cfg, &script);
+                let violation = if let Some(v) = &o.record.verdict {
+                    Some(format!("history probe cannot make progress: {v:?}"))
+                } else if o.valid && o.value != Some(o.expected) {
+                    Some(format!("a validated beneficiary read observed {:?}, in-order value is {}", o.value, o.expected))
+                } else if !o.final_ok {
+                    Some("the newest incarnation is not what the history holds at the end".to_owned())
+                } else {
+                    None
+                };
+                (o.record, header.clone(), violation)
+            },
+            &mut out,
+        );
+        res["script"] = sc.clone();
+        all.push(res);
+    }
+    json!({"scripts": all, "trace_runs": out.runs, "trace_events": out.events})
+}
+
 fn main() {
     let args: Vec<String> = std::env::args().collect();
     if args.len() < 3 {
@@ -478,6 +607,9 @@ fn main() {
         "cursor" => cmd_cursor(&a),
         "dep" => cmd_dep(&a),
         "sched" => cmd_sched(&a),
+        "hist" => cmd_hist(&a),
+        "entry" => cmd_entry(&a),
+        "statehist" => statehist::cmd(&a),
         other => {
             eprintln!("unknown command {other}");
             std::process::exit(2);
